@@ -7,6 +7,7 @@ import torch
 from pfhedge._utils.doc import _set_attr_and_docstring
 from pfhedge._utils.doc import _set_docstring
 from pfhedge._utils.str import _format_float
+from pfhedge._utils.time import n_time_points
 from pfhedge._utils.typing import TensorOrScalar
 from pfhedge.stochastic import generate_cir
 
@@ -106,7 +107,7 @@ class CIRRate(BasePrimary):
 
         spot = generate_cir(
             n_paths=n_paths,
-            n_steps=ceil(time_horizon / self.dt + 1),
+            n_steps=n_time_points(time_horizon, self.dt),
             init_state=init_state,
             kappa=self.kappa,
             theta=self.theta,
